@@ -1527,6 +1527,64 @@ def w19(rep):
     rep.floor("functions drawing from the hash-twist generator", n, 1)
 
 
+def w20(rep, f_foam):
+    """An n-ary node is written as: tag+format, argument count, then its fields -- and the *integer* fields (letter i of the
+    tag's argf: the record format of Rec/DEnv/DFluid/TR, the return format of Prog) are written in the same width as the
+    count.  foamTagFormat chooses that width; it must therefore look at those fields, not only at the count: a Prog with fewer
+    than 256 arguments whose return format is 306 was written with one byte per integer and came back with format 50 (the C
+    generated from the .ao had another signature), and a TR with two operands got an `immediate` format that has no room for
+    the field at all.  For every n-ary tag with an i field, the branch of foamTagFormat that the tag takes reads the data of
+    its fields when it computes the format."""
+    from .peval import peval
+    rows = []
+    tbl = f_foam.var("foamInfoTable")
+    for r in common.table_rows(tbl):
+        c = r["c"]
+        if len(c) >= 5:
+            tag, argf = common.enum_name(c[0]), common.string_value(c[4])
+            if tag and argf and argf.endswith("*") and "i" in argf.split("*")[0]:
+                rows.append((tag, argf))
+    rows = sorted(set(rows))
+    if len(rows) < 4:
+        raise AnalysisBroken("foamInfoTable: n-ary tags with an integer field not found (%s)" % rows)
+    fn = f_foam.func("foamTagFormat")
+    enumv = {}
+    for e in f_foam.raw["enums"]:
+        for n_, v_ in e["e"]:
+            enumv[n_] = v_
+    top = [st for st in fn["body"]["c"] if st is not None and st["k"] == "IfStmt"]
+    if len(top) != 1:
+        raise AnalysisBroken("foamTagFormat: expected one if-chain")
+    for tag, argf in rows:
+        node = top[0]
+        taken = None
+        while node is not None and node["k"] == "IfStmt":
+            v = peval(node["c"][0], {"tag": enumv[tag], "isNary": 1})
+            if v is None:
+                raise AnalysisBroken("foamTagFormat: the condition at line %d is not decided by the tag" % node["l"])
+            if v:
+                taken = node["c"][1]
+                break
+            node = node["c"][2] if len(node["c"]) > 2 else None
+        if taken is None:
+            taken = node
+        if taken is None:
+            raise AnalysisBroken("foamTagFormat: no branch for %s" % tag)
+        reads_data = any(y["k"] == "MemberExpr" and y["n"] == "data" for y in walk(taken))
+        immediate = any(y["k"] == "BinaryOperator" and y["op"] == "+" and any((z.get("mac") or "") == "STD_FORMS" or render(z) == "STD_FORMS" or const_value(z) == 2 for z in walk(y))
+                        and any(z["k"] == "DeclRefExpr" and z["n"] == "si" for z in walk(y)) for y in walk(taken))
+        key = "integer-field-fits-the-node-width:%s" % tag
+        if reads_data and not immediate:
+            rep.ok("W20", key, sample={"argf": argf})
+        else:
+            rep.violation("W20", key, "foam.c:%d (foamTagFormat)" % taken["l"],
+                          "%s (argf \"%s\") takes a branch of foamTagFormat that chooses the width of the node's integers from the "
+                          "argument count alone%s: its integer field is cut to that width when the unit is saved (a return "
+                          "format of 306 comes back as 50 and the C generated from the .ao declares another signature)"
+                          % (tag, argf, " and may choose an immediate format, which has no room for the field" if immediate else ""))
+    rep.floor("n-ary tags with an integer field", len(rows), 4)
+
+
 def run(tier, only=None):
     rep = common.Report("C05", tier, EXPLANATION)
     f_foam = common.extract("foam.c", all_trees=True)
@@ -1556,6 +1614,7 @@ def run(tier, only=None):
     w17(rep, f_foam)
     w18(rep)
     w19(rep)
+    w20(rep, f_foam)
     from . import c19_float, immed
     immed.report(rep, "W14", units=["foam.c", "sexpr.c"], floor=2)      # integers of the text form (.fm) read back in full
     c19_float.sentinels(rep, "W13")
